@@ -523,6 +523,21 @@ public:
 		, mSize(arraySize)
 	{ }
 
+	~CMsgPackReadBinaryScope()
+	{
+		// Skip bytes that was not read (a destructor must not throw, the error will be reported at the end of loading)
+		try
+		{
+			for (; mIndex < mSize; ++mIndex) {
+				mMsgPackReader->ReadBinary();
+			}
+		}
+		catch (...)
+		{
+			GetContext().DeferException(std::current_exception());
+		}
+	}
+
 	/// <summary>
 	/// Gets the current path in MsgPack.
 	/// </summary>
@@ -587,6 +602,21 @@ public:
 		, mMsgPackReader(msgPackReader)
 		, mSize(arraySize)
 	{ }
+
+	~CMsgPackReadArrayScope()
+	{
+		// Skip elements that was not read (a destructor must not throw, the error will be reported at the end of loading)
+		try
+		{
+			for (; mIndex < mSize; ++mIndex) {
+				mMsgPackReader->SkipValue();
+			}
+		}
+		catch (...)
+		{
+			GetContext().DeferException(std::current_exception());
+		}
+	}
 
 	/// <summary>
 	/// Gets the current path in MsgPack.
